@@ -46,7 +46,12 @@ ITEMS = {
     'TypeCheckLevelResult': st(TC + 'type_check_guard.rs', 'TypeCheckLevelResult', kind='type'),
     'TypeCheckResult': st(TC + 'mod.rs', 'TypeCheckResult', kind='type'),
     'TypeCheckCheckLevel': st(TC + 'type_check_context.rs', 'TypeCheckCheckLevel', kind='enum'),
-    'TypeCheckContext': st(TC + 'type_check_context.rs', 'TypeCheckContext'),
+    'TypeCheckContext': st(TC + 'type_check_context.rs', 'TypeCheckContext', fields={'drop': ['table_member_checked']}),
+
+    'LuaType::eq': fn(TY + 'types/lua_type.rs', 'eq', 'PartialEq for LuaType', pub=False, attrs='#[verifier::spinoff_prover]', ret='r',
+                      rules=['c16-eq-typeguard-arm', 'c16-eq-tablegeneric-arm'],
+                      ensures='eq_obeys() ==> r == teq(*self, *other) /*@C16.eq.is-teq*/',
+                      body_first='proof { reveal(teq); }'),
 
     # ---- accessors ------------------------------------------------------------------------------------------------
     'LuaIntersectionType::get_types': fn(TY + 'types/complex.rs', 'get_types', 'LuaIntersectionType', ret='r', ensures='r@ == self.types@'),
@@ -65,6 +70,15 @@ ITEMS = {
         ensures='''
         self.stack_level < 100 ==> (r matches Ok(g) && g.stack_level == self.stack_level + 1) /*@C16.guard.next-level*/,
         self.stack_level >= 100 ==> (r matches Err(e) && e is TypeRecursion) /*@C16.guard.limit-is-an-error*/'''),
+
+    'ModuleInfo': st(SRC + 'db_index/module/module_info.rs', 'ModuleInfo', fields={'keep': ['export_type']}),
+    'generic_tpl_constraint_type': fn(TC + 'mod.rs', 'generic_tpl_constraint_type', ret='r', ensures='''
+        !(typ is TplRef) ==> r is None,
+        r matches Some(t) ==> (typ matches LuaType::TplRef(tpl) && tpl.param.constraint == Some(*t))'''),
+    'escape_type': fn(TC + 'mod.rs', 'escape_type', ret='r', rules=['c16-letchain-cond-first', 'c16-type-ne', 'c16-tpl-escape'],
+                      ensures='''
+        r == sp_escape(db, *typ) /*@C16.escape.spec*/,
+        never_escapes(*typ) ==> r is None /*@C16.escape.only-eight-variants*/'''),
 
     # ---- the checker ----------------------------------------------------------------------------------------------
     'is_like_any': fn(TC + 'mod.rs', 'is_like_any', ret='r', ensures='''
@@ -88,8 +102,16 @@ ITEMS = {
         iter_names={0: 'it'},
         loops={0: '''invariant
                     guard_wf(check_guard), ctx_frame(old(context), context),
+                    !sp_like_any(*compact_type), !fast_eq_lb(*source, *compact_type), sp_escape(old(context).db, *compact_type) is None,
+                    *compact_type == LuaType::Intersection(*compact_intersection), !(source is Intersection),
                     it.seq().len() == compact_intersection.types@.len(), forall|k: int| 0 <= k < it.seq().len() ==> *(#[trigger] it.seq()[k]) == compact_intersection.types@[k],
-                    forall|k: int| 0 <= k < it.index@ ==> !head_ok(old(context).db, *source, #[trigger] compact_intersection.types@[k], check_guard.stack_level + 1),'''}),
+                    forall|k: int| 0 <= k < it.index@ ==> !head_ok(old(context).db, *source, #[trigger] compact_intersection.types@[k], check_guard.stack_level + 1) /*@C16.head-ok-accepts.inv*/,'''},
+        proof=[(r'\.is_ok\(\)\s*\{', 'after', '''proof {
+                    let k = it.index@;
+                    assert(*component == compact_intersection.types@[k]);
+                    assert(compact_type->Intersection_0.types@[k] == compact_intersection.types@[k]);
+                    assert(!head_err(old(context).db, *source, compact_intersection.types@[k], check_guard.stack_level + 1));
+                }''')]),
     'check_complex_type_compact': fn(
         TC + 'complex_type/mod.rs', 'check_complex_type_compact', ret='r',
         attrs='#[verifier::spinoff_prover]',
@@ -102,23 +124,23 @@ ITEMS = {
         iter_names={0: 'it', 1: 'it2'},
         loops={0: '''invariant
                     guard_wf(check_guard), ctx_frame(old(context), context),
-                    it.seq() == sp_into_vec(**union_type),
-                    forall|k: int| 0 <= k < it.index@ ==> !head_ok(old(context).db, #[trigger] sp_into_vec(**union_type)[k], *compact_type, check_guard.stack_level + 1),''',
+                    it.seq() == sp_into_vec(**union_type), *source == LuaType::Union(*union_type), !(compact_type is Union),
+                    forall|k: int| 0 <= k < it.index@ ==> !head_ok(old(context).db, #[trigger] sp_into_vec(**union_type)[k], *compact_type, check_guard.stack_level + 1) /*@C16.union-arm.first-member-accepts.inv*/,''',
                1: '''invariant
-                    guard_wf(check_guard), ctx_frame(old(context), context),'''}),
+                    guard_wf(check_guard), ctx_frame(old(context), context), !(source is Union), !(source is MultiLineUnion),'''}),
     'check_union_type_compact_union': fn(
         TC + 'complex_type/mod.rs', 'check_union_type_compact_union', ret='r',
         requires=GUARD_REQ,
         ensures='''
         ctx_frame(old(context), final(context)),
         (check_guard.stack_level < 100 && forall|k: int| 0 <= k < sp_into_vec(*compact_union).len()
-            ==> #[trigger] head_ok(%s, *source, sp_into_vec(*compact_union)[k], %s + 1)) ==> r is Ok''' % (DBF, LVL),
+            ==> head_ok(%s, *source, #[trigger] sp_into_vec(*compact_union)[k], %s + 1)) ==> r is Ok''' % (DBF, LVL),
         decreases='100 - check_guard.stack_level, 0int',
         iter_names={0: 'it'},
         loops={0: '''invariant
                     guard_wf(check_guard), ctx_frame(old(context), context),
                     it.seq() == sp_into_vec(*compact_union),'''}),
-    'TypeCheckContext::new': fn(TC + 'type_check_context.rs', 'new', 'TypeCheckContext', ret='r',
+    'TypeCheckContext::new': fn(TC + 'type_check_context.rs', 'new', 'TypeCheckContext', ret='r', rules=['c16-drop-member-checked-init'],
                                 ensures='r.db == db, r.detail == detail, r.level == level'),
     'check_type_compact': fn(
         TC + 'mod.rs', 'check_type_compact', ret='r',
@@ -128,9 +150,93 @@ ITEMS = {
         head_err(db, *source, *compact_type, 0) ==> r is Err /*@C16.entry.head-err-rejects*/'''),
 }
 
+UT = TY + 'type_ops/union_type.rs'
+ITEMS.update({
+    'BasicTypeKind': st(TY + 'basic_union.rs', 'BasicTypeKind', kind='enum', attrs='#[derive(Clone, Copy)]'),
+    'BasicTypeKind::from_type': fn(TY + 'basic_union.rs', 'from_type', 'BasicTypeKind', ret='r', ensures='r == sp_kind_of(*value)'),
+    'LuaType::is_number': fn(TY + 'types/predicates.rs', 'is_number', 'LuaType', ret='r', ensures='r == sp_is_number(*self)'),
+    'LuaType::is_union': fn(TY + 'types/predicates.rs', 'is_union', 'LuaType', ret='r', ensures='r == (*self is Union)'),
+    'LuaType::from_vec': fn(TY + 'types/predicates.rs', 'from_vec', 'LuaType', ret='r'),
+    'LuaUnionType::from_vec': fn(TY + 'types/complex.rs', 'from_vec', 'LuaUnionType', ret='r', rules=['c16-contains', 'c16-find-non-nil']),
+    'LuaUnionType::into_vec': fn(TY + 'types/complex.rs', 'into_vec', 'LuaUnionType', ret='r', rules=['c16-basic-collect'],
+                                 ensures='r@ == sp_into_vec(*self) /*@C16.union.into-vec*/'),
+    'can_use_structural_union': fn(
+        UT, 'can_use_structural_union', ret='r', attrs='#[verifier::spinoff_prover]',
+        ensures='r ==> structural_batch(types@) /*@C16.union.fast-path-only-without-pair-rules*/',
+        iter_names={0: 'it'},
+        loops={0: '''invariant
+                it.seq().len() == types@.len(), forall|k: int| 0 <= k < it.seq().len() ==> *(#[trigger] it.seq()[k]) == types@[k],
+                0 <= boolean_const_count <= 1,
+                forall|i: int| 0 <= i < it.index@ ==> plain(#[trigger] types@[i]),
+                forall|i: int| 0 <= i < it.index@ && (#[trigger] types@[i]) is Number ==> has_number,
+                forall|i: int| 0 <= i < it.index@ && num_variant(#[trigger] types@[i]) ==> has_number_variant,
+                forall|i: int| 0 <= i < it.index@ && (#[trigger] types@[i]) is Integer ==> has_integer,
+                forall|i: int| 0 <= i < it.index@ && int_const(#[trigger] types@[i]) ==> has_integer_const,
+                forall|i: int| 0 <= i < it.index@ && (#[trigger] types@[i]) is String ==> has_string,
+                forall|i: int| 0 <= i < it.index@ && str_const(#[trigger] types@[i]) ==> has_string_const,
+                forall|i: int| 0 <= i < it.index@ && (#[trigger] types@[i]) is Boolean ==> has_boolean,
+                forall|i: int| 0 <= i < it.index@ && bool_const(#[trigger] types@[i]) ==> boolean_const_count == 1,
+                forall|i: int| 0 <= i < it.index@ && (#[trigger] types@[i]) is Table ==> has_table,
+                forall|i: int| 0 <= i < it.index@ && (#[trigger] types@[i]) is TableConst ==> has_table_const,
+                !(has_number && has_number_variant) && !(has_integer && has_integer_const) && !(has_string && has_string_const)
+                    && !(has_boolean && boolean_const_count > 0) && !(has_table && has_table_const),
+                forall|i: int, j: int| 0 <= i < it.index@ && 0 <= j < it.index@ && i != j ==> !pair_rule(#[trigger] types@[i], #[trigger] types@[j]) /*@C16.union.fast-path-only-without-pair-rules.inv*/,'''}),
+    'union_type_impl': fn(UT, 'union_type_impl', ret='r', rules=['c16-mlu-include', 'c16-contains']),
+    'canonicalize_callable_union': {
+        'src': {'kind': 'slice', 'name': 'canonicalize_callable_union',
+                'in': {'file': UT, 'kind': 'fn', 'name': 'canonicalize_callable_union'},
+                'from': 'BODY_START', 'to': r'return LuaType::from_vec\(members\);\s*\}',
+                'head': 'pub fn canonicalize_callable_union(db: &DbIndex, ty: LuaType) -> LuaType',
+                'tail': '    vx_canonicalize_callables(db, members)'},
+        'rules': ['c16-any-callable'], 'ret': 'r'},
+    'union_type': fn(UT, 'union_type', ret='r', rules=['c16-cloned-or-else']),
+    'union_fold': {
+        'src': {'kind': 'slice', 'name': 'union_fold', 'in': {'file': UT, 'kind': 'fn', 'name': 'union_type_all'},
+                'from': r'let mut result = LuaType::Never;', 'to': r'\n    result\n',
+                'head': 'pub fn union_fold(db: &DbIndex, result_types: Vec<LuaType>) -> LuaType', 'tail': ''},
+        'ret': 'r'},
+    'union_type_all': fn(UT, 'union_type_all', ret='r', rules=['c16-mono-vec']),
+})
+
 UNIT = {
     'items': ITEMS,
     'extra_rules': [
+        ('c16-contains', r'\b(\w+)\.contains\(([^()]*)\)', r'vx_contains(&\1, \2)',
+         'V.contains(X) on a Vec<LuaType> -> vx_contains(&V, X) (helper body is that call; contract = std doc of slice::contains with the proved meaning of LuaType::eq)'),
+        ('c16-find-non-nil', r'types\.iter\(\)\.find\(\|t\| !matches!\(t, LuaType::Nil\)\)', 'vx_find_non_nil(&types)',
+         'types.iter().find(|t| !matches!(t, LuaType::Nil)) -> vx_find_non_nil(&types) (helper body is that call; contract = std doc of Iterator::find)'),
+        ('c16-basic-collect', r'basic\.iter\(\)\.collect\(\)', 'vx_basic_collect(basic)',
+         'basic.iter().collect() -> vx_basic_collect(basic): BasicTypeUnion::iter is an `impl Iterator` chain over a u32 bit set; contract = one LuaType per set bit'),
+        ('c16-mlu-include', r'let include = match right \{.*?\n            \};', 'let include = vx_mlu_include(left, right);',
+         'the `include` test of the MultiLineUnion arm of union_type_impl (closures over tuple patterns inside Iterator::any) -> opaque bool; '
+         'the arm is outside every proved case (MultiLineUnion members make can_use_structural_union return false)', re.S),
+        ('c16-any-callable', r'members\s*\.iter\(\)\s*\.any\(\|ty\| matches!\(ty, LuaType::DocFunction\(_\) \| LuaType::Signature\(_\)\)\)',
+         'vx_any_callable(&members)', 'members.iter().any(|ty| matches!(ty, DocFunction|Signature)) -> vx_any_callable(&members) (std doc of Iterator::any)'),
+        ('c16-cloned-or-else', r'get_real_type\(db, &source\)\s*\.cloned\(\)\s*\.unwrap_or_else\(\|\| source\.clone\(\)\)',
+         'match get_real_type(db, &source) { Some(__t) => __t.clone(), None => source.clone() }',
+         'O.cloned().unwrap_or_else(|| X.clone()) -> match O { Some(t) => t.clone(), None => X.clone() } (std definitions of Option::cloned and unwrap_or_else)'),
+        ('c16-mono-vec', r'pub fn union_type_all<I>\(db: &DbIndex, types: I\) -> LuaType\s*where\s*I: IntoIterator<Item = LuaType>,',
+         'pub fn union_type_all(db: &DbIndex, types: Vec<LuaType>) -> LuaType',
+         'instantiation of the generic parameter I := Vec<LuaType> (the body only says `for typ in types`; every caller passes a Vec or collects one)'),
+        ('c16-drop-member-checked-init', r'\n\s*table_member_checked: None,', '',
+         'struct projection companion: the initialiser of the dropped field `table_member_checked` (a HashSet<LuaMemberKey> used only by the '
+         'table/object branch checkers, which are shims here) is removed from TypeCheckContext::new'),
+        ('c16-letchain-cond-first', r'if type_decl\.is_alias\(\)\s*&& let Some\(origin_type\) = type_decl\.get_alias_origin\(db, None\)\s*\{(.*?)\n            \}',
+         r'if type_decl.is_alias() { if let Some(origin_type) = type_decl.get_alias_origin(db, None) {\1\n            } }',
+         'else-less `if A && let P = E { B }` -> `if A { if let P = E { B } }` (let-chains evaluate left to right; the catalogue rule '
+         'letchain-nest only rewrites chains that START with `let`)', re.S),
+        ('c16-type-ne', r'if resolved != \*typ \{', 'if vx_type_ne(&resolved, typ) {',
+         '`resolved != *typ` -> vx_type_ne(&resolved, typ): the helper body is that very expression, its result is an uninterpreted relation'),
+        ('c16-tpl-escape', r'return generic_tpl_constraint_type\(typ\)\.cloned\(\);', 'return vx_tpl_escape(typ);',
+         '`generic_tpl_constraint_type(typ).cloned()` -> vx_tpl_escape(typ): a wrapper whose body is that very expression; trusted: its value is '
+         'a function of the argument (it gets the name sp_tpl_escape)'),
+        ('c16-eq-typeguard-arm', r'\(LuaType::TypeGuard\(a\), LuaType::TypeGuard\(b\)\) => a == b,',
+         '(LuaType::TypeGuard(a), LuaType::TypeGuard(b)) => vx_arc_type_eq(a, b),',
+         'the one arm of LuaType::eq that re-enters LuaType::eq through `Arc<LuaType> == Arc<LuaType>` (recursion through a generic trait '
+         'impl, outside the verifier\'s dialect): the comparison is made by a shim whose result is the uninterpreted relation that teq names'),
+        ('c16-eq-tablegeneric-arm', r'\(LuaType::TableGeneric\(a\), LuaType::TableGeneric\(b\)\) => a == b,',
+         '(LuaType::TableGeneric(a), LuaType::TableGeneric(b)) => vx_arc_types_eq(a, b),',
+         'same for `Arc<Vec<LuaType>> == Arc<Vec<LuaType>>`'),
         ('c16-tuple-field-pub', r'pub struct BasicTypeUnion\(u32\);', 'pub struct BasicTypeUnion(pub u32);',
          'visibility of the tuple field (no run-time meaning; specs name it)'),
     ],
@@ -139,5 +245,43 @@ UNIT = {
     'trusted': [],
     'samples': [],
     'not_covered': [],
-    'mutants': [],
+    'mutants': [
+        {'name': 'depth-error-before-like-any', 'item': 'check_general_type_compact',
+         'pattern': r'if is_like_any\(compact_type\) \{', 'repl': 'let _deeper = check_guard.next_level()?;\n    if is_like_any(compact_type) {',
+         'expect': r'C16\.any-is-accepted-everywhere'},
+        {'name': 'escape-before-fast-eq', 'item': 'check_general_type_compact',
+         'pattern': r'if fast_eq_check\(source, compact_type\) \{\s*return Ok\(\(\)\);\s*\}', 'repl': '',
+         'expect': r'C16\.reflexive\.head-guard'},
+        {'name': 'fast-eq-ignores-thread', 'item': 'fast_eq_check',
+         'pattern': r'\| \(LuaType::Thread, LuaType::Thread\)\s*', 'repl': '',
+         'expect': r'C16\.fast-eq\.accepts'},
+        {'name': 'fast-eq-ref-ignores-id', 'item': 'fast_eq_check',
+         'pattern': r'\(LuaType::Ref\(type_id_left\), LuaType::Ref\(type_id_right\)\) => type_id_left == type_id_right,',
+         'repl': '(LuaType::Ref(type_id_left), LuaType::Ref(type_id_right)) => true,',
+         'expect': r'C16\.fast-eq\.nothing-else'},
+        {'name': 'like-any-drops-unknown', 'item': 'is_like_any',
+         'pattern': r'LuaType::Any \| LuaType::Unknown => true', 'repl': 'LuaType::Any => true',
+         'expect': r'C16\.any-is-like-any'},
+        {'name': 'any-source-arm-rejects', 'item': 'check_general_type_compact',
+         'pattern': r'LuaType::Unknown \| LuaType::Any => Ok\(\(\)\),', 'repl': 'LuaType::Unknown => Ok(()),',
+         'expect': r'C16\.head-ok-accepts'},
+        {'name': 'selfinfer-accepted', 'item': 'check_general_type_compact',
+         'pattern': r'_ => Err\(TypeCheckFailReason::TypeNotMatch\),\s*\}\s*\}$', 'repl': '_ => Ok(()),\n    }\n}',
+         'expect': r'C16\.head-err-rejects'},
+        {'name': 'union-arm-needs-all-members', 'item': 'check_complex_type_compact',
+         'pattern': r'Err\(e\) if e\.is_type_not_match\(\) => \{\}', 'repl': 'Err(e) if e.is_type_not_match() => return Err(e),',
+         'expect': r'C16\.union-arm\.never-mismatches-member'},
+        {'name': 'union-arm-ignores-accepting-member', 'item': 'check_complex_type_compact',
+         'pattern': r'Ok\(_\) => return Ok\(\(\)\),', 'repl': 'Ok(_) => {}',
+         'expect': r'C16\.union-arm\.first-member-accepts'},
+        {'name': 'guard-limit-off-by-one', 'item': 'TypeCheckGuard::next_level',
+         'pattern': r'next_level > MAX_TYPE_CHECK_LEVEL', 'repl': 'next_level >= MAX_TYPE_CHECK_LEVEL',
+         'expect': r'C16\.guard\.next-level'},
+        {'name': 'escape-typeguard-to-table', 'item': 'escape_type',
+         'pattern': r'LuaType::TypeGuard\(_\) => return Some\(LuaType::Boolean\),', 'repl': 'LuaType::TypeGuard(_) => return Some(LuaType::Table),',
+         'expect': r'C16\.escape\.spec'},
+        {'name': 'eq-ignores-def-id', 'item': 'LuaType::eq',
+         'pattern': r'\(LuaType::Def\(a\), LuaType::Def\(b\)\) => a == b,', 'repl': '(LuaType::Def(a), LuaType::Def(b)) => true,',
+         'expect': r'C16\.eq\.is-teq'},
+    ],
 }
